@@ -70,7 +70,7 @@ Section CacheProofs.
     destruct (r_reason r).
     - intros [= E]. pose proof (forward_c_sound c qname qname qt [] S) as H.
       rewrite E in H. exact H.
-    - destruct (_ && _).
+    - destruct (via_upstream _ _).
       + intros [= E].
         pose proof (forward_c_sound c (r_canon r) qname qt [RR_CNAME qname (r_canon r)] S) as H.
         rewrite E in H. exact H.
@@ -105,7 +105,7 @@ Section CacheProofs.
     destruct (r_reason r).
     - intros [= E]. pose proof (forward_c_question c qname qname qt []) as H.
       rewrite E in H. exact H.
-    - destruct (_ && _).
+    - destruct (via_upstream _ _).
       + intros [= E].
         pose proof (forward_c_question c (r_canon r) qname qt [RR_CNAME qname (r_canon r)]) as H.
         rewrite E in H. exact H.
@@ -147,14 +147,15 @@ Section CacheProofs.
         exists asked; (split; [reflexivity|]); rewrite U; cbn; auto 7.
   Qed.
 
-  (** The CNAME resolved upstream, with the cache on: the client's question,
+  (** The CNAME resolved upstream (the canonical name is not covered by the
+      table), with the cache on: the client's question,
       and for some spelling [asked'] of the canonical name the upstream's
       RCODE and CNAME :: the upstream's records (or the SERVFAIL of a failed
       exchange). *)
   Theorem respond_c_cname_reply en tbl c qname qt r c' f p :
     cache_sound c ->
     check_host sort en tbl qname qt = Some r -> r_reason r = Rewritten ->
-    r_canon r <> [] -> r_ips r = [] ->
+    r_canon r <> [] -> r_ips r = [] -> covered_flag sort en tbl qname qt = false ->
     respond_c sort upstream en tbl c qname qt = Some (c', (f, p)) ->
     rp_qname p = qname /\
     exists asked', to_lower asked' = to_lower (r_canon r) /\
@@ -164,8 +165,8 @@ Section CacheProofs.
       | None => f = true /\ rp_rcode p = rcode_servfail /\ rp_answer p = []
       end.
   Proof.
-    intros S C Rr Rc Ri R. split; [eapply respond_c_question; eauto|].
-    unfold respond_c in R. rewrite C, Rr, Ri in R.
+    intros S C Rr Rc Ri Cov R. split; [eapply respond_c_question; eauto|].
+    unfold respond_c, via_upstream in R. rewrite C, Rr, Ri, Cov in R.
     destruct (r_canon r) as [|b canon] eqn:Ec; [congruence|]. cbn [is_nil negb andb] in R.
     injection R as R.
     destruct (forward_c_is_upstream_reply _ _ _ _ _ _ _ _ S R) as (asked' & E & D).
@@ -203,7 +204,7 @@ Section CacheProofs.
     destruct (r_reason r).
     - intros [= R]. destruct (forward_c_transparent _ _ _ _ _ _ _ _ S R) as [-> B].
       eexists. split; [|exact B]. destruct (forward upstream qname qname qt []); reflexivity.
-    - destruct (_ && _).
+    - destruct (via_upstream _ _).
       + intros [= R]. destruct (forward_c_transparent _ _ _ _ _ _ _ _ S R) as [-> B].
         eexists. split; [|exact B]. destruct (forward _ _ _ _ _); reflexivity.
       + intros [= _ <- <-]. eexists. split; [reflexivity|]. unfold same_but_calls. auto.
